@@ -25,7 +25,7 @@ HolderKinds == {"prop", "items", "tuple", "addprops", "additems", "allof", "alia
                 "patprop", "anyof", "oneof", "not", "nesteddefs"}
 AuxHolders  == {"auxresp", "auxparam", "auxpathitem"}
 SecondKinds == {"none", "code", "prop2", "same", "codes2"}
-Collisions  == {"none", "exact", "case", "twoimports", "gennames"}
+Collisions  == {"none", "exact", "case", "twoimports", "gennames", "gennames2"}
 
 AuxTargets  == {"aux1", "aux2", "aux3", "trans", "selfrec", "mutual", "auxarrayself", "diamond", "uptrans", "crosstrans", "recdep", "recmap", "auxcase"}
 AnonTargets == {"anonprop", "anonitems", "anonallof", "anonsibling", "anonimport"}
@@ -243,6 +243,11 @@ Collide(c, t) ==
     [] c = "gennames" -> [defs |-> [G_1 |-> Mk([type |-> "integer", format |-> "int32"], <<>>), G_2 |-> Mk([type |-> "string"], <<>>)], aux |-> <<>>,
                        path |-> ("P_3" :> PathItemWith([get |-> Mk([operationId |-> "third"], [responses |-> Mk(<<>>, ("200" :> Resp([schema |-> RefTo(<<"root", "definitions", "G_1">>)]) @@
                                                                                                                              "201" :> Resp([schema |-> RefTo(<<"root", "definitions", "G_2">>)])))])]))]
+    \* the same for the allOf member of holder "allof" (G_3 = the generated name of definitions/N_8/allOf/1, G_4 = its case variant):
+    \* members of lists are addressed in place by the namer
+    [] c = "gennames2" -> [defs |-> [G_3 |-> Mk([type |-> "integer", format |-> "int32"], <<>>), G_4 |-> Mk([type |-> "string"], <<>>)], aux |-> <<>>,
+                       path |-> ("P_3" :> PathItemWith([get |-> Mk([operationId |-> "third"], [responses |-> Mk(<<>>, ("200" :> Resp([schema |-> RefTo(<<"root", "definitions", "G_3">>)]) @@
+                                                                                                                             "201" :> Resp([schema |-> RefTo(<<"root", "definitions", "G_4">>)])))])]))]
 
 Op2(at, ch) == Mk(at, ch)
 
@@ -259,6 +264,7 @@ ValidCombo(t, s, h, h2, c) ==
   /\ (h \in {"refsib", "unuseddef", "additems1"} => t \in {"aux1", "local", "anonprop"} /\ h2 \in {"none", "code"})
   /\ (t = "auxcase" => s \in {"prim", "object"} /\ h \in {"prop", "code", "opbody", "alias"} /\ c = "none")
   /\ (c = "gennames" => h = "nested" /\ t \in {"aux1", "diamond"})
+  /\ (c = "gennames2" => h = "allof" /\ t \in {"aux1", "diamond"})
   /\ (c # "none" /\ t = "diamond" => RefFreeShape(s))
   /\ (s = "ptrarray" <=> FALSE) \/ (s = "ptrarray" /\ t = "anonprop")
   /\ (h \in AuxHolders => t \in {"aux1", "selfrec", "mutual", "diamond"} /\ h2 \in {"none", "code"} /\ c = "none")
